@@ -7,6 +7,7 @@ import (
 	"sort"
 	"strconv"
 	"strings"
+	"time"
 
 	"free5gclib/aper"
 	"free5gclib/ngap"
@@ -56,6 +57,10 @@ func init() {
 	}
 	registerOp("build", viaWorker("build"))
 	registerOp("buildsum", viaWorker("buildsum"))
+	// the worker has its own time limit (4 s + 1 s per 16 K characters of the request); the executor's watchdog must not give up
+	// before it (an abandoned call would overlap with the next request to the same worker)
+	opLimits["build"] = 40 * time.Second
+	opLimits["buildsum"] = 40 * time.Second
 }
 
 // ---------------------------------------------------------------- summary (library decoder + reflection walk)
